@@ -34,6 +34,9 @@ class Prop(common.PropertyCheck):
         for _ in range(self.budget(150, 15000)):
             M = rng.uniform(0.2, 12)
             yield {'k': 'triple', 'T': 10 ** rng.uniform(0, 8), 'M': M, 'W': rng.uniform(0, 1.5 * M)}
+        # pairs of transforms built one after the other whose W agree to four decimals: each solves its own equation
+        for W in (0.5, 0.50004, 3.0, 2.99996, 1.23456, 1.23459, 0.1, 0.1000003, 0.0, 0.00004):
+            yield {'k': 'triple', 'T': 262144.0, 'M': 4.5, 'W': W}
         # tiny positive W (the parameter p is then within 1e-4 of 1): explicit values where the default root finder used to give up, and a log-uniform sweep
         for W in (2.2067881192499896e-05, 1.0444992896870532e-05, 2.1627818477047468e-05, 1.3667837451383129e-05, 7.494001790604879e-06):
             yield {'k': 'triple', 'T': rng.choice([262144., 1023., 1e4]), 'M': rng.choice([4.5, 5.0, 12.0]), 'W': W}
@@ -42,6 +45,10 @@ class Prop(common.PropertyCheck):
         for _ in range(self.budget(120, 1500)):
             yield {'k': 'data', 'neg': rng.choice(['none', 'tiny', 'small', 'large']), 'multi': rng.random() < 0.4,
                    'cont': rng.choice(['array', 'sample', 'sample_rfi']), 'over': rng.choice([None, 'T', 'M', 'W']), 'above': rng.random() < 0.4, 'seed': rng.randrange(1 << 30)}
+        # a sample without events (everything gated out) still knows its range: alone, and as the widest member of a list
+        for i in range(self.budget(6, 40)):
+            yield {'k': 'data', 'neg': ['none', 'small', 'large'][i % 3], 'multi': i % 2 == 1, 'cont': 'sample', 'over': None, 'above': False,
+                   'seed': rng.randrange(1 << 30), 'empty_last': True}
         # lists mixing samples (range known) and plain arrays (range unknown): each contributes by its own rule
         for i in range(self.budget(10, 100)):
             yield {'k': 'data', 'neg': ['none', 'small', 'large', 'tiny'][i % 4], 'multi': True, 'cont': 'mixed', 'over': [None, None, 'M', 'W'][i % 4], 'above': False,
@@ -127,9 +134,16 @@ class Prop(common.PropertyCheck):
                         d[:, 1] = np.minimum(np.asarray(d[:, 1]), 0.4 * rng_hi)      # no event near the top of the range: range and largest event differ
                     if case.get('above'):
                         d[2, 1] = 7.5 * rng_hi          # an event far above the channel's range: T stays the range limit
+                if case.get('empty_last') and i == nsamp - 1:
+                    # the last (or only) sample has the widest range of the list and no events
+                    import random
+                    spec = samples.spec_rich(random.Random(case['seed'] + 99), N=4, D=2, datatype='F', log_channels=[1], res=[1024, 1048576])
+                    d, _ = samples.load(spec, name='c18_empty.fcs')
+                    rng_hi = float(d.range(1)[1])
+                    d = d[:0]
                 datas.append(d)
                 col = np.asarray(d)[:, 1]
-                mins.append(float(col.min())); maxs.append(float(col.max())); ranges.append(rng_hi)
+                mins.append(float(col.min()) if col.size else float('inf')); maxs.append(float(col.max()) if col.size else float('-inf')); ranges.append(rng_hi)
             kw = {}
             if case['over'] == 'T':
                 kw['T'] = 5000.0
